@@ -430,6 +430,21 @@ func (r *rewriter) run() bool {
 	if r.needRT {
 		astutil.AddImport(r.fset, r.file, "verifrt")
 	}
+	if r.changed && !astutil.UsesImport(r.file, "context") {
+		// context.WithCancel & co were its only use
+		for _, im := range r.file.Imports {
+			if im.Path.Value == `"context"` {
+				name := ""
+				if im.Name != nil {
+					name = im.Name.Name
+				}
+				if name != "_" && name != "." {
+					astutil.DeleteNamedImport(r.fset, r.file, name, "context")
+				}
+				break
+			}
+		}
+	}
 	if r.changed {
 		// keep only the comments in front of the package clause (build constraints);
 		// everything else could be misplaced by the printer after the rewrite.
@@ -539,7 +554,8 @@ func (r *rewriter) rangeChan(n *ast.RangeStmt) (*ast.BlockStmt, ast.Stmt) {
 		recv,
 		&ast.IfStmt{Cond: &ast.UnaryExpr{Op: token.NOT, X: ok}, Body: &ast.BlockStmt{List: []ast.Stmt{&ast.BranchStmt{Tok: token.BREAK}}}},
 	}
-	body = append(body, n.Body.List...)
+	// the original body keeps its own scope: it may redeclare the loop variable
+	body = append(body, &ast.BlockStmt{List: n.Body.List})
 	loop := &ast.ForStmt{Body: &ast.BlockStmt{List: body}}
 	pre = append(pre, loop)
 	return &ast.BlockStmt{List: pre}, loop
